@@ -57,8 +57,10 @@ Ev(c, ov) ==
 
 \* sizes reported for a sheet: used range extended by the overrides
 MaxOf(S, d) == IF S = {} THEN d ELSE LET m == CHOOSE x \in S : \A y \in S : y <= x IN IF m > d THEN m ELSE d
-SizeOf(s, ov) == [rows |-> MaxOf({Pos[c][3] : c \in {x \in DOMAIN ov : Pos[x][1] = s}}, UsedSize[s].rows),
-                  cols |-> MaxOf({Pos[c][2] : c \in {x \in DOMAIN ov : Pos[x][1] = s}}, UsedSize[s].cols)]
+\* D: the set of coordinates that extend the used range (the coordinates of the overrides in force)
+SizeOfDom(s, D) == [rows |-> MaxOf({Pos[c][3] : c \in {x \in D : Pos[x][1] = s}}, UsedSize[s].rows),
+                    cols |-> MaxOf({Pos[c][2] : c \in {x \in D : Pos[x][1] = s}}, UsedSize[s].cols)]
+SizeOf(s, ov) == SizeOfDom(s, DOMAIN ov)
 CoordAt(s, col, row) == IF \E c \in AllCoords : Pos[c] = <<s, col, row>>
                         THEN CHOOSE c \in AllCoords : Pos[c] = <<s, col, row>> ELSE "none"
 EvAt(s, col, row, ov) == LET c == CoordAt(s, col, row) IN IF c = "none" THEN Blank ELSE Ev(c, ov)
